@@ -19,6 +19,11 @@ OPT_NOTE = ("optimiser model (coq/model/Optimiser.v) replayed bit-for-bit agains
             "MCOptimiser::optimise_state on scripted and real states")
 
 PROPS = {
+    "C08": dict(props_file="props/C08.v", needs_gen=True,
+                engines=[("opt", dict(focus="C08", quick=150, thorough=3000)),
+                         ("geom", dict(quick=[("C08", 1200)], thorough=[("C08", 40000)]))],
+                design="DESIGN.md section 4 C08",
+                assumptions=["no sampled value is NaN (premise of the binary64 range theorem; monitored on every recorded proposal)"]),
     "C02": dict(props_file="props/C02.v", engines=[("geom", dict(quick=[("C02", 8000)], thorough=[("C02", 400000)]))],
                 design="DESIGN.md section 4 C02"),
     "C03": dict(props_file="props/C03.v", engines=[("geom", dict(quick=[("C03", 8000)], thorough=[("C03", 400000)]))],
